@@ -421,7 +421,7 @@ pub fn edges_for(prop: Prop, tier: Tier, r: &dyn Runner, st: &St) -> Vec<Edge> {
         Prop::C19 => { elementwise(r, tier, st, &mut v); ranges(r, tier, st, true, &mut v); clones(r, tier, st, &mut v); }
         Prop::C11 => { elementwise(r, tier, st, &mut v); ranges(r, tier, st, true, &mut v); clones(r, tier, st, &mut v); }
         Prop::C10 => { capacity(r, tier, st, bounds(prop, tier).lmax, &mut v); elementwise(r, tier, st, &mut v); }
-        Prop::C04 => { wrong_types(r, tier, st, &mut v); lazies(r, tier, st, &mut v); v.retain(|e| !matches!(e, Edge::Lazy { uses, .. } if *uses > 1)); movers(&mut v); }
+        Prop::C04 => { wrong_types(r, tier, st, &mut v); if r.tracked() { lazies(r, tier, st, &mut v); } v.retain(|e| !matches!(e, Edge::Lazy { uses, .. } if *uses > 1)); movers(&mut v); }
         Prop::C03 | Prop::C05 => {
             if prop == Prop::C05 { capacity(r, tier, st, bounds(prop, tier).lmax, &mut v); v.retain(|e| !matches!(e, Edge::Cap(_, CapCall::PushRun, _))); } elementwise(r, tier, st, &mut v); ranges(r, tier, st, true, &mut v); adaptors(r, tier, st, true, &mut v); clones(r, tier, st, &mut v); lazies(r, tier, st, &mut v); histories(r, tier, st, &mut v); three(r, tier, st, &mut v); }
         _ => {}
